@@ -64,6 +64,7 @@ type Action struct {
 	// CoNonce, otherwise the same report) whose signature is made with the first signer's key
 	Co      int   `json:"co,omitempty"`
 	CoNonce int32 `json:"cononce,omitempty"`
+	CoOwn   bool  `json:"coown,omitempty"` // the second validator signs with its own key (an honest two-signer transaction)
 	// AVS actions (kinds "avs*")
 	Avs *AvsAct `json:"avs,omitempty"`
 	// Ethereum transaction (kind "ethTx")
@@ -482,7 +483,11 @@ func (m *Machine) Apply(a *Action) (Outcome, error) {
 		if a.Co > 0 {
 			co := m.Keys[(a.Co-1)%len(m.Keys)]
 			msgs = []sdk.Msg{msg, sim.BuildPriceMsg(co, a.Feeder, a.Src, entries, a.Based, a.CoNonce)}
-			bz, err = c.BuildPriceTxMulti([]sim.ConsKey{key, co}, []sim.ConsKey{key, key}, msgs...)
+			signWith := []sim.ConsKey{key, key}
+			if a.CoOwn {
+				signWith[1] = co
+			}
+			bz, err = c.BuildPriceTxMulti([]sim.ConsKey{key, co}, signWith, msgs...)
 		} else {
 			bz, err = c.BuildPriceTx(key, sim.PriceSig(a.Sig), other, msgs...)
 		}
